@@ -152,4 +152,1685 @@ theorem doneKey_set_self {B : Bytes} {o n : Nat} {ws : Writers} {c : Chunk} {w :
   · exact hw
   · exact absurd hk hne
 
+theorem doneKey_set_same {B : Bytes} {o n : Nat} {ws : Writers} {c c' : Chunk} {w : BW}
+    (hm : (c, w) ∈ ws) (h : DoneKey B o n ws c') : DoneKey B o n (ws.set c w) c' := by
+  intro cw hcw hk
+  rcases Writers.mem_set hcw with ⟨rfl, _⟩ | ⟨hm', _⟩
+  · exact h (c, w) hm hk
+  · exact h cw hm' hk
+
+theorem gridChunk_slice_length (P : Params) (B : Bytes) (hc : 0 < P.chunk) (hB : B.length = P.size)
+    (c : Chunk) (hg : GridChunk P c) : (slice B c.b c.size).length = c.size := by
+  have := hg.le hc
+  rw [slice_length]; simp only [Chunk.size]; omega
+
+/-- `copyFetchedChunks` for one chunk when cache reads are all-or-nothing (`CacheOK`): a failure
+leaves the writer untouched, a success completes it. -/
+theorem copyChunk_exact (P : Params) (B : Bytes) (hc : 0 < P.chunk) (hB : B.length = P.size)
+    (o n : Nat) (cache : Cache) (hcache : CacheOK P B cache) (c : Chunk) (w : BW)
+    (hw : WOK B o n (c, w))
+    (hb : (place o n c).lower + (place o n c).expected ≤ c.size) :
+    ((copyChunk cache c w).2 = false → (copyChunk cache c w).1 = w) ∧
+    ((copyChunk cache c w).2 = true → WDone B o n (c, (copyChunk cache c w).1)) := by
+  unfold copyChunk
+  cases hget : cache.get c with
+  | none => exact ⟨fun _ => rfl, fun h => by simp at h⟩
+  | some d =>
+    obtain ⟨hd, hg⟩ := hcache c d hget
+    have hlen : d.length = c.size := by rw [hd]; exact gridChunk_slice_length P B hc hB c hg
+    simp only
+    rw [List.take_of_length_le (by omega)]
+    refine ⟨fun h => ?_, fun _ => wdone_write B o n c w d hw hd hlen hb⟩
+    simp only [decide_eq_false_iff_not] at h
+    omega
+
+theorem copyInOrder_exact (P : Params) (B : Bytes) (hc : 0 < P.chunk) (hB : B.length = P.size)
+    (o n : Nat) (missing : List Chunk)
+    (hb : ∀ c ∈ missing, (place o n c).lower + (place o n c).expected ≤ c.size)
+    (cache : Cache) (hcache : CacheOK P B cache) :
+    ∀ (order : List Chunk) (ws : Writers), WsOK B o n missing ws →
+      WsOK B o n missing (copyInOrder cache ws order).1 ∧
+      (∀ c', DoneKey B o n ws c' → DoneKey B o n (copyInOrder cache ws order).1 c') ∧
+      ((copyInOrder cache ws order).2 = true →
+        ∀ c ∈ order, DoneKey B o n (copyInOrder cache ws order).1 c) := by
+  intro order
+  induction order with
+  | nil => intro ws h; exact ⟨h, fun _ h' => h', fun _ c hc' => by simp at hc'⟩
+  | cons c rest ih =>
+    intro ws hws
+    unfold copyInOrder
+    cases hget : ws.get c with
+    | none =>
+      simp only
+      obtain ⟨i1, i2, i3⟩ := ih ws hws
+      refine ⟨i1, i2, ?_⟩
+      intro hok c' hc'
+      rcases List.mem_cons.mp hc' with rfl | hc'
+      · intro cw hcw hk
+        have : c' ∈ ws.map (·.1) := by
+          rw [hws.1, ← i1.1]; exact List.mem_map.mpr ⟨cw, hcw, hk⟩
+        exact absurd hget (Writers.get_ne_none this)
+      · exact i3 hok c' hc'
+    | some w =>
+      simp only
+      have hm := Writers.get_mem hget
+      have hcm : c ∈ missing := by rw [← hws.1]; exact List.mem_map.mpr ⟨(c, w), hm, rfl⟩
+      obtain ⟨e1, e2⟩ := copyChunk_exact P B hc hB o n cache hcache c w (hws.2 _ hm) (hb c hcm)
+      rcases hcc : copyChunk cache c w with ⟨w', ok⟩
+      rw [hcc] at e1 e2
+      cases ok with
+      | false =>
+        simp only
+        have : w' = w := e1 rfl
+        subst this
+        exact ⟨wsOK_set hws (hws.2 _ hm), fun c' h' => doneKey_set_same hm h',
+          fun h => by simp at h⟩
+      | true =>
+        simp only
+        have hd : WDone B o n (c, w') := e2 rfl
+        obtain ⟨i1, i2, i3⟩ := ih (ws.set c w') (wsOK_set hws hd.wok)
+        refine ⟨i1, fun c' h' => i2 c' (doneKey_set hd h'), ?_⟩
+        intro hok c' hc'
+        rcases List.mem_cons.mp hc' with rfl | hc'
+        · exact i2 c' (doneKey_set_self hd)
+        · exact i3 hok c' hc'
+
+/-- The leader's own `fetchRegions` writes: every delivered chunk that has a writer completes it. -/
+theorem applyGot_exact (P : Params) (B : Bytes) (hc : 0 < P.chunk) (hB : B.length = P.size)
+    (o n : Nat) (missing : List Chunk)
+    (hb : ∀ c ∈ missing, (place o n c).lower + (place o n c).expected ≤ c.size) :
+    ∀ (got : List (Chunk × Bytes)) (ws : Writers), Exact P B got → WsOK B o n missing ws →
+      WsOK B o n missing (applyGot ws got) ∧
+      (∀ c', DoneKey B o n ws c' → DoneKey B o n (applyGot ws got) c') ∧
+      (∀ cd ∈ got, DoneKey B o n (applyGot ws got) cd.1) := by
+  intro got
+  induction got with
+  | nil => intro ws _ h; exact ⟨h, fun _ h' => h', fun cd hcd => by simp at hcd⟩
+  | cons cd rest ih =>
+    intro ws hex hws
+    obtain ⟨c, d⟩ := cd
+    have hex' : Exact P B rest := fun cd' h' => hex cd' (List.mem_cons_of_mem _ h')
+    unfold applyGot
+    cases hget : ws.get c with
+    | none =>
+      simp only
+      obtain ⟨i1, i2, i3⟩ := ih ws hex' hws
+      refine ⟨i1, i2, ?_⟩
+      intro cd' hcd'
+      rcases List.mem_cons.mp hcd' with rfl | hcd'
+      · intro cw hcw hk
+        have : c ∈ ws.map (·.1) := by
+          rw [hws.1, ← i1.1]; exact List.mem_map.mpr ⟨cw, hcw, hk⟩
+        exact absurd hget (Writers.get_ne_none this)
+      · exact i3 cd' hcd'
+    | some w =>
+      simp only
+      have hm := Writers.get_mem hget
+      have hcm : c ∈ missing := by rw [← hws.1]; exact List.mem_map.mpr ⟨(c, w), hm, rfl⟩
+      obtain ⟨hd, hg⟩ := hex (c, d) (List.mem_cons_self ..)
+      simp only at hd hg
+      have hlen : d.length = c.size := by rw [hd]; exact gridChunk_slice_length P B hc hB c hg
+      have hdone : WDone B o n (c, w.write d) :=
+        wdone_write B o n c w d (hws.2 _ hm) hd hlen (hb c hcm)
+      obtain ⟨i1, i2, i3⟩ := ih (ws.set c (w.write d)) hex' (wsOK_set hws hdone.wok)
+      refine ⟨i1, fun c' h' => i2 c' (doneKey_set hdone h'), ?_⟩
+      intro cd' hcd'
+      rcases List.mem_cons.mp hcd' with rfl | hcd'
+      · exact i2 c (doneKey_set_self hdone)
+      · exact i3 cd' hcd'
+
+/-! ### the caller's buffer -/
+
+/-- Writing, for each chunk, the exact piece at its place gives an exact buffer prefix
+(`assemble_tiles` for explicit writers). -/
+theorem assembleW_tiles (B : Bytes) (o n k : Nat) (hk : k ≤ n) (hB : o + k ≤ B.length)
+    (hits : List (Chunk × Bytes)) (ws : Writers) :
+    ∀ (cs : List Chunk) (a : Nat) (buf : Bytes),
+      buf.length = n →
+      Tiles a (cs.map (place o n)) k →
+      (∀ c ∈ cs, segFor o n hits ws c = slice B (o + (place o n c).base) (place o n c).expected) →
+      buf.take a = slice B o a →
+      (assembleW o n hits ws buf cs).take k = slice B o k ∧
+        (assembleW o n hits ws buf cs).length = n := by
+  intro cs
+  induction cs with
+  | nil =>
+    intro a buf hlen ht _ hpre
+    simp only [List.map_nil, Tiles] at ht
+    subst ht
+    exact ⟨hpre, hlen⟩
+  | cons c cs ih =>
+    intro a buf hlen ht hex hpre
+    simp only [List.map_cons, Tiles] at ht
+    obtain ⟨hbase, ht'⟩ := ht
+    have hle := Tiles.le ht'
+    have hseg := hex c (List.mem_cons_self ..)
+    unfold assembleW
+    rw [hseg]
+    have hsl : (slice B (o + (place o n c).base) (place o n c).expected).length
+        = (place o n c).expected := by
+      rw [slice_length]; omega
+    apply ih (a + (place o n c).expected)
+    · rw [writeAt_length _ _ _ (by rw [hsl]; omega)]; exact hlen
+    · exact ht'
+    · intro c' hc'; exact hex c' (List.mem_cons_of_mem _ hc')
+    · have := writeAt_take buf (place o n c).base
+        (slice B (o + (place o n c).base) (place o n c).expected) (by omega)
+      rw [hsl] at this
+      rw [← hbase, this, hbase, hpre, ← hbase, slice_append]
+
+/-- Static facts about a prepared `ReadAt(o, n)`. -/
+structure PendOK (P : Params) (B : Bytes) (o n : Nat) (cs : List Chunk)
+    (hits : List (Chunk × Bytes)) (missing : List Chunk) : Prop where
+  tiles : Tiles 0 (cs.map (place o n)) (min n (P.size - o))
+  inB : o + min n (P.size - o) ≤ B.length
+  hitsOK : ∀ cd ∈ hits, WindowOK B o n cd
+  total : ∀ c ∈ cs, (∃ d, (c, d) ∈ hits) ∨ c ∈ missing
+  bound : ∀ c ∈ missing, (place o n c).lower + (place o n c).expected ≤ c.size
+
+theorem segFor_exact (P : Params) (B : Bytes) (o n : Nat) (cs : List Chunk)
+    (hits : List (Chunk × Bytes)) (missing : List Chunk) (ws : Writers)
+    (hp : PendOK P B o n cs hits missing) (hws : WsOK B o n missing ws)
+    (hdone : ∀ c ∈ missing, DoneKey B o n ws c) :
+    ∀ c ∈ cs, segFor o n hits ws c = slice B (o + (place o n c).base) (place o n c).expected := by
+  intro c hc
+  unfold segFor
+  cases hf : hits.find? (fun kv => decide (kv.1 = c)) with
+  | some kv =>
+    simp only
+    have hm := List.mem_of_find?_eq_some hf
+    have hk := List.find?_some hf
+    simp only [decide_eq_true_eq] at hk
+    have := hp.hitsOK kv hm
+    unfold WindowOK at this
+    rw [hk] at this
+    exact this
+  | none =>
+    simp only
+    rw [List.find?_eq_none] at hf
+    have hcm : c ∈ missing := by
+      rcases hp.total c hc with ⟨d, hd⟩ | h
+      · exact absurd (by simp) (hf (c, d) hd)
+      · exact h
+    cases hg : ws.get c with
+    | none => exact absurd hg (Writers.get_ne_none (by rw [hws.1]; exact hcm))
+    | some w =>
+      simp only
+      have := hdone c hcm (c, w) (Writers.get_mem hg) rfl
+      rw [this.2.2.2]
+      congr 1
+      simp only [place]; omega
+
+theorem finish_exact (P : Params) (B : Bytes) (pd : Pending)
+    (hp : PendOK P B pd.o pd.n pd.cs pd.hits pd.missing) (hws : WsOK B pd.o pd.n pd.missing pd.ws)
+    (hdone : ∀ c ∈ pd.missing, DoneKey B pd.o pd.n pd.ws c) :
+    ∃ buf, finish P pd = .ok (min pd.n (P.size - pd.o)) buf ∧ buf.length = pd.n ∧
+      buf.take (min pd.n (P.size - pd.o)) = slice B pd.o (min pd.n (P.size - pd.o)) := by
+  have := assembleW_tiles B pd.o pd.n (min pd.n (P.size - pd.o)) (by omega) hp.inB pd.hits pd.ws
+    pd.cs 0 (List.replicate pd.n 0) (by simp) hp.tiles
+    (segFor_exact P B pd.o pd.n pd.cs pd.hits pd.missing pd.ws hp hws hdone) (by simp [slice])
+  refine ⟨_, ?_, this.2, this.1⟩
+  unfold finish
+  rw [adjust_eq]
+
+/-! ### cache loss -/
+
+def Loss.isTrunc : Loss → Bool
+  | .trunc _ _ => true
+  | .evict _ => false
+
+theorem lose_invQ (P : Params) (Q : Chunk → Bytes → Prop) :
+    ∀ (loss : List Loss) (s : St), InvQ P Q s →
+      ((∀ l ∈ loss, l.isTrunc = false) ∨ TruncClosed Q) →
+      InvQ P Q { s with cache := loss.foldl Cache.lose s.cache } := by
+  intro loss
+  induction loss with
+  | nil => intro s hs _; exact hs
+  | cons l loss ih =>
+    intro s hs hT
+    have hT' : (∀ l ∈ loss, l.isTrunc = false) ∨ TruncClosed Q := by
+      rcases hT with h | h
+      · exact Or.inl (fun l' h' => h l' (List.mem_cons_of_mem _ h'))
+      · exact Or.inr h
+    have h1 : InvQ P Q { s with cache := s.cache.lose l } := by
+      cases l with
+      | evict c => exact (dropEntry_specQ P Q s hs c).1
+      | trunc c k =>
+        rcases hT with h | h
+        · have := h (.trunc c k) (List.mem_cons_self ..); simp [Loss.isTrunc] at this
+        · exact (truncEntry_specQ P Q h s hs c k).1
+    exact ih { s with cache := s.cache.lose l } h1 hT'
+
+/-! ### the shared fetch is exact when cache reads are all-or-nothing -/
+
+/-- A round with honest replies in which the cache loses entries only as a whole. -/
+def Round.OK (B : Bytes) : Round → Prop
+  | .lead r => HonestReply B r
+  | .follow lr loss _ => HonestReply B lr ∧ ∀ l ∈ loss, l.isTrunc = false
+
+/-- A round with honest replies (any cache loss, truncation included). -/
+def Round.Honest (B : Bytes) : Round → Prop
+  | .lead r => HonestReply B r
+  | .follow lr _ _ => HonestReply B lr
+
+instance (B : Bytes) : (r : Round) → Decidable (r.OK B)
+  | .lead r => by unfold Round.OK; infer_instance
+  | .follow _ _ _ => by unfold Round.OK; infer_instance
+
+instance (B : Bytes) : (r : Round) → Decidable (r.Honest B)
+  | .lead r => by unfold Round.Honest; infer_instance
+  | .follow _ _ _ => by unfold Round.Honest; infer_instance
+
+/-- A successful result is the right count and the right bytes. -/
+def SharedExact (P : Params) (B : Bytes) (o n : Nat) (out : SharedOut) : Prop :=
+  ∀ k buf, out = .ok k buf → k = min n (P.size - o) ∧ buf.length = n ∧
+    buf.take k = slice B o k
+
+theorem sharedExact_finish (P : Params) (B : Bytes) (pd : Pending)
+    (hp : PendOK P B pd.o pd.n pd.cs pd.hits pd.missing) (hws : WsOK B pd.o pd.n pd.missing pd.ws)
+    (hdone : ∀ c ∈ pd.missing, DoneKey B pd.o pd.n pd.ws c) :
+    SharedExact P B pd.o pd.n (finish P pd) := by
+  obtain ⟨buf, h1, h2, h3⟩ := finish_exact P B pd hp hws hdone
+  intro k buf' h
+  rw [h1] at h
+  cases h
+  exact ⟨rfl, h2, h3⟩
+
+theorem fetchRangeShared_exact (P : Params) (B : Bytes) (hc : 0 < P.chunk)
+    (hB : B.length = P.size) :
+    ∀ (script : List Round) (pd : Pending) (s : St),
+      PendOK P B pd.o pd.n pd.cs pd.hits pd.missing → WsOK B pd.o pd.n pd.missing pd.ws →
+      Inv P B s → (∀ r ∈ script, r.OK B) →
+      Inv P B (fetchRangeShared P pd s script).1 ∧ CovSub s (fetchRangeShared P pd s script).1 ∧
+      SharedExact P B pd.o pd.n (fetchRangeShared P pd s script).2 := by
+  intro script
+  induction script with
+  | nil =>
+    intro pd s _ _ hs _
+    exact ⟨hs, CovSub.refl s, by intro k buf h; simp [fetchRangeShared] at h⟩
+  | cons round rest ih =>
+    intro pd s hp hws hs hr
+    have hround := hr round (List.mem_cons_self ..)
+    cases round with
+    | lead reply =>
+      simp only [fetchRangeShared]
+      obtain ⟨h1, h2, h3⟩ := fetchMissing_spec P B _ (goodQ_exact P B) hc s pd.missing reply
+        ((inv_iff P B s).mp hs) hround
+      generalize fetchMissing P s pd.missing reply = R at h1 h2 h3
+      obtain ⟨s1, r1⟩ := R
+      cases r1 with
+      | none => exact ⟨(inv_iff P B _).mpr h1, h2, by intro k buf h; simp at h⟩
+      | some got =>
+        simp only
+        obtain ⟨hex, hall⟩ := h3 got rfl
+        obtain ⟨a1, _, a3⟩ := applyGot_exact P B hc hB pd.o pd.n pd.missing hp.bound got pd.ws hex hws
+        refine ⟨(inv_iff P B _).mpr h1, h2, ?_⟩
+        apply sharedExact_finish P B { pd with ws := applyGot pd.ws got } hp a1
+        intro c hcm
+        obtain ⟨cd, hcd, rfl⟩ := hall c hcm
+        exact a3 cd hcd
+    | follow lr loss order =>
+      obtain ⟨hlr, hloss⟩ := hround
+      simp only [fetchRangeShared]
+      split
+      · exact ⟨hs, CovSub.refl s, by intro k buf h; simp at h⟩
+      · rename_i hperm
+        have hperm : order.Perm pd.missing := by
+          rw [← List.isPerm_iff]; simpa using hperm
+        obtain ⟨h1, h2, _⟩ := fetchMissing_spec P B _ (goodQ_exact P B) hc s pd.missing lr
+          ((inv_iff P B s).mp hs) hlr
+        generalize fetchMissing P s pd.missing lr = R at h1 h2
+        obtain ⟨s1, r1⟩ := R
+        cases r1 with
+        | none => exact ⟨(inv_iff P B _).mpr h1, h2, by intro k buf h; simp at h⟩
+        | some got =>
+          simp only
+          have h1' := lose_invQ P _ loss s1 h1 (Or.inl hloss)
+          have hinv : Inv P B { s1 with cache := loss.foldl Cache.lose s1.cache } :=
+            (inv_iff P B _).mpr h1'
+          have hsub : CovSub s { s1 with cache := loss.foldl Cache.lose s1.cache } := h2
+          obtain ⟨c1, c2, c3⟩ := copyInOrder_exact P B hc hB pd.o pd.n pd.missing hp.bound
+            (loss.foldl Cache.lose s1.cache) hinv.cacheOK order pd.ws hws
+          rcases hco : copyInOrder (loss.foldl Cache.lose s1.cache) pd.ws order with ⟨ws', ok⟩
+          rw [hco] at c1 c2 c3
+          cases ok with
+          | true =>
+            simp only
+            refine ⟨hinv, hsub, ?_⟩
+            apply sharedExact_finish P B { pd with ws := ws' } hp c1
+            intro c hcm
+            exact c3 rfl c (hperm.mem_iff.mpr hcm)
+          | false =>
+            simp only
+            obtain ⟨i1, i2, i3⟩ := ih { pd with ws := ws' }
+              { s1 with cache := loss.foldl Cache.lose s1.cache } hp c1 hinv
+              (fun r h => hr r (List.mem_cons_of_mem _ h))
+            exact ⟨i1, CovSub.trans hsub i2, i3⟩
+
+/-- The prepared read: what `prepareChunksForRead` leaves. -/
+def prepared (s : St) (o n : Nat) (cs : List Chunk) : Pending :=
+  { o := o, n := n, cs := cs, hits := (classify o n s.cache cs).1,
+    missing := (classify o n s.cache cs).2,
+    ws := (classify o n s.cache cs).2.map fun c => (c, newWriter o n c) }
+
+theorem readAtShared_unfold (P : Params) (s : St) (o n : Nat) (script : List Round)
+    (hc : 0 < P.chunk) (h : ¬ (n = 0 ∨ o > P.size)) :
+    readAtShared P s o n script =
+      let pd := prepared s o n (chunksFrom P (o + n - 1) (P.size + 1) (floorU o P.chunk))
+      if pd.missing.isEmpty then (s, finish P pd) else fetchRangeShared P pd s script := by
+  unfold readAtShared
+  rw [if_neg h, walk_readAt P hc]
+  rfl
+
+theorem wsOK_prepared (B : Bytes) (s : St) (o n : Nat) (cs : List Chunk) :
+    WsOK B o n (prepared s o n cs).missing (prepared s o n cs).ws := by
+  refine ⟨?_, ?_⟩
+  · simp only [prepared, List.map_map]
+    conv => rhs; rw [← List.map_id (classify o n s.cache cs).2]
+    apply List.map_congr_left
+    intro c _; rfl
+  · intro cw hcw
+    simp only [prepared] at hcw
+    obtain ⟨c, _, rfl⟩ := List.mem_map.mp hcw
+    exact wok_newWriter B o n c
+
+theorem pendOK_prepared (P : Params) (B : Bytes) (Q : Chunk → Bytes → Prop) (hQ : GoodQ P B Q)
+    (hc : 0 < P.chunk) (hB : B.length = P.size) (s : St) (hs : InvQ P Q s) (o n : Nat)
+    (hn : 0 < n) (ho : o ≤ P.size) :
+    let pd := prepared s o n (chunksFrom P (o + n - 1) (P.size + 1) (floorU o P.chunk))
+    PendOK P B pd.o pd.n pd.cs pd.hits pd.missing := by
+  simp only [prepared]
+  obtain ⟨hcl1, hcl2, hcl3⟩ := classify_spec o n s.cache
+    (chunksFrom P (o + n - 1) (P.size + 1) (floorU o P.chunk))
+  refine ⟨?_, by omega, ?_, hcl3, ?_⟩
+  · have := tiles_readAt P hc o n hn ho
+    rwa [adjust_eq] at this
+  · intro cd hcd
+    obtain ⟨hget, _, hhit⟩ := hcl1 cd hcd
+    exact windowOK_of_prefix B o n cd.1 cd.2 (hQ.pre _ _ (hs.cacheQ cd.1 cd.2 hget)) hhit
+  · intro c hcm
+    exact (place_bounds P hc o n hn ho c (hcl2 c hcm)).2.2
+
+/-- `ReadAt` on the shared path: with all-or-nothing cache reads (strong invariant, whole-entry
+losses only) every successful result is exact, whatever the rounds. -/
+theorem readAtShared_exact (P : Params) (B : Bytes) (hc : 0 < P.chunk) (hB : B.length = P.size)
+    (s : St) (hs : Inv P B s) (o n : Nat) (script : List Round) (hr : ∀ r ∈ script, r.OK B) :
+    Inv P B (readAtShared P s o n script).1 ∧ CovSub s (readAtShared P s o n script).1 ∧
+    SharedExact P B o n (readAtShared P s o n script).2 := by
+  by_cases h : n = 0 ∨ o > P.size
+  · unfold readAtShared
+    rw [if_pos h]
+    refine ⟨hs, CovSub.refl s, ?_⟩
+    intro k buf hk
+    cases hk
+    have : min n (P.size - o) = 0 := by omega
+    rw [this]
+    exact ⟨rfl, by simp, by simp [slice]⟩
+  · rw [readAtShared_unfold P s o n script hc h]
+    have hp := pendOK_prepared P B _ (goodQ_exact P B) hc hB s ((inv_iff P B s).mp hs) o n
+      (by omega) (by omega)
+    have hws := wsOK_prepared B s o n (chunksFrom P (o + n - 1) (P.size + 1) (floorU o P.chunk))
+    simp only at hp ⊢
+    split
+    · rename_i hemp
+      refine ⟨hs, CovSub.refl s, ?_⟩
+      apply sharedExact_finish P B _ hp hws
+      intro c hcm
+      rw [List.isEmpty_iff] at hemp
+      rw [hemp] at hcm
+      simp at hcm
+    · exact fetchRangeShared_exact P B hc hB script _ s hp hws hs hr
+
+/-! ### progress of the retry loop -/
+
+/-- A round in which this caller leads always terminates, and ignores the rest of the script. -/
+theorem fetchRangeShared_lead (P : Params) (pd : Pending) (s : St) (reply : Reply)
+    (rest : List Round) :
+    fetchRangeShared P pd s (.lead reply :: rest) = fetchRangeShared P pd s [.lead reply] ∧
+    (fetchRangeShared P pd s (.lead reply :: rest)).2 ≠ .outOfFuel ∧
+    (fetchRangeShared P pd s (.lead reply :: rest)).2 ≠ .badScript := by
+  simp only [fetchRangeShared]
+  rcases fetchMissing P s pd.missing reply with ⟨s', _ | got⟩ <;> simp [finish]
+
+/-- What one follower round does: bad script, shared error, successful copy (done), or failed copy
+and retry with the SAME writers (as they are after the failed copy) on the next round. -/
+theorem fetchRangeShared_follow (P : Params) (pd : Pending) (s : St) (lr : Reply)
+    (loss : List Loss) (order : List Chunk) (rest : List Round) :
+    let r := fetchRangeShared P pd s (.follow lr loss order :: rest)
+    let L := fetchMissing P s pd.missing lr
+    let s'' : St := { L.1 with cache := loss.foldl Cache.lose L.1.cache }
+    let C := copyInOrder s''.cache pd.ws order
+    (order.isPerm pd.missing = false ∧ r = (s, .badScript)) ∨
+    (order.isPerm pd.missing = true ∧ L.2 = none ∧ r = (L.1, .err)) ∨
+    (order.isPerm pd.missing = true ∧ L.2.isSome ∧ C.2 = true ∧
+      r = (s'', finish P { pd with ws := C.1 })) ∨
+    (order.isPerm pd.missing = true ∧ L.2.isSome ∧ C.2 = false ∧
+      r = fetchRangeShared P { pd with ws := C.1 } s'' rest) := by
+  simp only [fetchRangeShared]
+  cases hperm : order.isPerm pd.missing with
+  | false => simp
+  | true =>
+    simp only [Bool.true_eq_false]
+    rcases fetchMissing P s pd.missing lr with ⟨s', _ | got⟩
+    · simp
+    · simp only
+      rcases copyInOrder (loss.foldl Cache.lose s'.cache) pd.ws order with ⟨ws', _ | _⟩ <;> simp
+
+/-- The retry loop can only run out of script when every round was a follower round; a script
+that contains a leader round always terminates. -/
+theorem fetchRangeShared_outOfFuel (P : Params) :
+    ∀ (script : List Round) (pd : Pending) (s : St),
+      (fetchRangeShared P pd s script).2 = .outOfFuel →
+      ∀ r ∈ script, ∃ lr loss order, r = .follow lr loss order := by
+  intro script
+  induction script with
+  | nil => intro pd s _ r hr; simp at hr
+  | cons round rest ih =>
+    intro pd s h r hr
+    cases round with
+    | lead reply => exact absurd h (fetchRangeShared_lead P pd s reply rest).2.1
+    | follow lr loss order =>
+      rcases List.mem_cons.mp hr with rfl | hr
+      · exact ⟨lr, loss, order, rfl⟩
+      · rcases fetchRangeShared_follow P pd s lr loss order rest with
+          ⟨_, h'⟩ | ⟨_, _, h'⟩ | ⟨_, _, _, h'⟩ | ⟨_, _, _, h'⟩
+        · rw [h'] at h; simp at h
+        · rw [h'] at h; simp at h
+        · rw [h'] at h; simp [finish] at h
+        · rw [h'] at h; exact ih _ _ h r hr
+
+/-! ### the leader path of the explicit-writer model is `readAt` -/
+
+theorem Writers.get_set_self {ws : Writers} {c : Chunk} {w w' : BW} (h : ws.get c = some w) :
+    (ws.set c w').get c = some w' := by
+  unfold Writers.get Writers.set at *
+  rw [List.find?_map]
+  have hfun : ((fun kv : Chunk × BW => decide (kv.1 = c)) ∘
+      fun kv : Chunk × BW => if kv.1 = c then (c, w') else kv)
+      = fun kv => decide (kv.1 = c) := by
+    funext kv; simp only [Function.comp]; split
+    · rename_i hk; simp [hk]
+    · rfl
+  rw [hfun]
+  rw [Option.map_eq_some_iff] at h
+  obtain ⟨kv, hkv, _⟩ := h
+  have hp := List.find?_some hkv
+  simp only [decide_eq_true_eq] at hp
+  rw [hkv]
+  simp [hp]
+
+theorem Writers.get_set_ne {ws : Writers} {c c1 : Chunk} {w' : BW} (h : c1 ≠ c) :
+    (ws.set c1 w').get c = ws.get c := by
+  unfold Writers.get Writers.set
+  rw [List.find?_map]
+  have hfun : ((fun kv : Chunk × BW => decide (kv.1 = c)) ∘
+      fun kv : Chunk × BW => if kv.1 = c1 then (c1, w') else kv)
+      = fun kv => decide (kv.1 = c) := by
+    funext kv; simp only [Function.comp]; split
+    · rename_i hk; simp [hk]
+    · rfl
+  rw [hfun]
+  cases hf : ws.find? (fun kv => decide (kv.1 = c)) with
+  | none => rfl
+  | some kv =>
+    have hp := List.find?_some hf
+    simp only [decide_eq_true_eq] at hp
+    have : kv.1 ≠ c1 := by rw [hp]; exact fun h' => h h'.symm
+    simp [this]
+
+/-- A completed writer keeps its bytes through any further deliveries. -/
+theorem applyGot_get_done (c : Chunk) :
+    ∀ (got : List (Chunk × Bytes)) (ws : Writers) (w : BW), ws.get c = some w →
+      w.destOff + w.dest.length ≤ w.current →
+      ∃ w', (applyGot ws got).get c = some w' ∧ w'.dest = w.dest := by
+  intro got
+  induction got with
+  | nil => intro ws w h _; exact ⟨w, h, rfl⟩
+  | cons cd rest ih =>
+    intro ws w hget hdone
+    obtain ⟨c1, d1⟩ := cd
+    unfold applyGot
+    cases hg1 : ws.get c1 with
+    | none => exact ih ws w hget hdone
+    | some w1 =>
+      simp only
+      by_cases hcc : c1 = c
+      · subst hcc
+        rw [hget] at hg1; cases hg1
+        obtain ⟨f1, f2, f3⟩ := BW.write_fields w d1
+        obtain ⟨w', h1, h2⟩ := ih (ws.set c1 (w.write d1)) (w.write d1)
+          (Writers.get_set_self hget) (by rw [f1, f2, f3]; omega)
+        exact ⟨w', h1, by rw [h2, BW.write_complete w d1 hdone]⟩
+      · exact ih _ w (by rw [Writers.get_set_ne hcc]; exact hget) hdone
+
+/-- A fresh writer ends up with the window of the FIRST delivery of its chunk. -/
+theorem applyGot_get_first (o n : Nat) (c : Chunk)
+    (hb : (place o n c).lower + (place o n c).expected ≤ c.size) :
+    ∀ (got : List (Chunk × Bytes)) (ws : Writers) (w : BW) (kv : Chunk × Bytes),
+      (∀ cd ∈ got, cd.2.length = cd.1.size) →
+      ws.get c = some w → w.current = 0 → w.destOff = (place o n c).lower →
+      w.dest.length = (place o n c).expected →
+      got.find? (fun kv => decide (kv.1 = c)) = some kv →
+      ∃ w', (applyGot ws got).get c = some w' ∧
+        w'.dest = slice kv.2 (place o n c).lower (place o n c).expected := by
+  intro got
+  induction got with
+  | nil => intro ws w kv _ _ _ _ _ hf; simp at hf
+  | cons cd rest ih =>
+    intro ws w kv hlen hget h0 hoff hl hf
+    obtain ⟨c1, d1⟩ := cd
+    unfold applyGot
+    by_cases hcc : c1 = c
+    · subst hcc
+      rw [List.find?_cons_of_pos (by simp)] at hf
+      cases hf
+      rw [hget]
+      simp only
+      have hd1 : d1.length = c1.size := hlen (c1, d1) (List.mem_cons_self ..)
+      obtain ⟨f1, f2, f3⟩ := BW.write_fields w d1
+      obtain ⟨w', h1, h2⟩ := applyGot_get_done c1 rest (ws.set c1 (w.write d1)) (w.write d1)
+        (Writers.get_set_self hget) (by rw [f1, f2, f3]; omega)
+      refine ⟨w', h1, ?_⟩
+      rw [h2, BW.write_full w d1 h0 (by omega), hoff, hl]
+    · rw [List.find?_cons_of_neg (by simpa using hcc)] at hf
+      have hlen' : ∀ cd ∈ rest, cd.2.length = cd.1.size :=
+        fun cd h => hlen cd (List.mem_cons_of_mem _ h)
+      cases hg1 : ws.get c1 with
+      | none => exact ih ws w kv hlen' hget h0 hoff hl hf
+      | some w1 =>
+        simp only
+        exact ih _ w kv hlen' (by rw [Writers.get_set_ne hcc]; exact hget) h0 hoff hl hf
+
+theorem storeChunks_len : ∀ (cs : List Chunk) (s : St) (stream : Bytes) (got : List (Chunk × Bytes)),
+    (storeChunks s stream cs).2 = some got → ∀ cd ∈ got, cd.2.length = cd.1.size := by
+  intro cs
+  induction cs with
+  | nil => intro s stream got h; simp [storeChunks] at h; subst h; simp
+  | cons c cs ih =>
+    intro s stream got h
+    rw [storeChunks_cons] at h
+    split at h
+    · simp at h
+    · rename_i hlen
+      simp only [Option.map_eq_some_iff] at h
+      obtain ⟨got', hg', rfl⟩ := h
+      intro cd hcd
+      rcases List.mem_cons.mp hcd with rfl | hcd
+      · simp only [List.length_take]; omega
+      · exact ih _ _ got' hg' cd hcd
+
+theorem storeParts_len (P : Params) : ∀ (ps : List Part) (s : St) (got : List (Chunk × Bytes)),
+    (storeParts P s ps).2 = some got → ∀ cd ∈ got, cd.2.length = cd.1.size := by
+  intro ps
+  induction ps with
+  | nil => intro s got h; simp [storeParts] at h; subst h; simp
+  | cons p ps ih =>
+    intro s got h
+    rw [storeParts_cons] at h
+    split at h
+    · simp at h
+    · simp only at h
+      have h1 := storeChunks_len (chunksFrom P p.e (P.size + 1) p.b) s p.data
+      generalize storeChunks s p.data (chunksFrom P p.e (P.size + 1) p.b) = R at h h1
+      obtain ⟨s1, r1⟩ := R
+      cases r1 with
+      | none => simp at h
+      | some got1 =>
+        simp only [Option.map_eq_some_iff] at h
+        obtain ⟨got', hg', rfl⟩ := h
+        intro cd hcd
+        rcases List.mem_append.mp hcd with hcd | hcd
+        · exact h1 got1 rfl cd hcd
+        · exact ih s1 got' hg' cd hcd
+
+theorem fetchMissing_len (P : Params) (s : St) (missing : List Chunk) (reply : Reply)
+    (got : List (Chunk × Bytes)) (h : (fetchMissing P s missing reply).2 = some got) :
+    (∀ cd ∈ got, cd.2.length = cd.1.size) ∧ ∀ c ∈ missing, ∃ cd ∈ got, cd.1 = c := by
+  unfold fetchMissing at h
+  split at h
+  · rename_i hemp
+    simp at h; subst h
+    rw [List.isEmpty_iff] at hemp; subst hemp
+    simp
+  · cases reply with
+    | fail => simp at h
+    | parts ps =>
+      simp only at h
+      have h1 := storeParts_len P ps s
+      generalize storeParts P s ps = R at h h1
+      obtain ⟨s1, r1⟩ := R
+      cases r1 with
+      | none => simp at h
+      | some got1 =>
+        simp only at h
+        split at h
+        · rename_i hall
+          simp at h; subst h
+          refine ⟨h1 got1 rfl, ?_⟩
+          intro c hc'
+          rw [List.all_eq_true] at hall
+          have := hall c hc'
+          rw [List.any_eq_true] at this
+          obtain ⟨g, hg, hgc⟩ := this
+          exact ⟨g, hg, by simpa using hgc⟩
+        · simp at h
+
+theorem assemble_eq_assembleW (o n : Nat) (hits : List (Chunk × Bytes)) (ws : Writers)
+    (f : Chunk → Option Bytes) :
+    ∀ (cs : List Chunk) (buf : Bytes),
+      (∀ c ∈ cs, ∃ d, f c = some d ∧
+        segFor o n hits ws c = slice d (place o n c).lower (place o n c).expected) →
+      assemble o n buf (cs.filterMap (fun c => (f c).map (fun d => (c, d)))) =
+        assembleW o n hits ws buf cs := by
+  intro cs
+  induction cs with
+  | nil => intro buf _; rfl
+  | cons c cs ih =>
+    intro buf h
+    obtain ⟨d, hd, hseg⟩ := h c (List.mem_cons_self ..)
+    rw [List.filterMap_cons, hd]
+    simp only [Option.map_some]
+    unfold assemble assembleW
+    simp only
+    rw [hseg]
+    exact ih _ (fun c' h' => h c' (List.mem_cons_of_mem _ h'))
+
+theorem prepared_get (s : St) (o n : Nat) (cs : List Chunk) (c : Chunk)
+    (h : c ∈ (prepared s o n cs).missing) :
+    (prepared s o n cs).ws.get c = some (newWriter o n c) := by
+  cases hg : (prepared s o n cs).ws.get c with
+  | none =>
+    exact absurd hg (Writers.get_ne_none (by rw [(wsOK_prepared [] s o n cs).1]; exact h))
+  | some w =>
+    have hm := Writers.get_mem hg
+    simp only [prepared] at hm
+    obtain ⟨c', _, heq⟩ := List.mem_map.mp hm
+    cases heq
+    rfl
+
+/-- On the leader path the explicit-writer model computes exactly what `readAt` computes (for
+every reply, honest or not): same state, same outcome, same buffer. -/
+theorem readAtShared_lead_eq (P : Params) (hc : 0 < P.chunk) (s : St) (o n : Nat)
+    (reply : Reply) (rest : List Round) :
+    (readAtShared P s o n (.lead reply :: rest)).1 = (readAt P s o n reply).1 ∧
+    (readAtShared P s o n (.lead reply :: rest)).2 =
+      (match (readAt P s o n reply).2 with
+       | none => SharedOut.err
+       | some kb => SharedOut.ok kb.1 kb.2) := by
+  by_cases h : n = 0 ∨ o > P.size
+  · unfold readAtShared readAt
+    rw [if_pos h, if_pos h]
+    exact ⟨rfl, rfl⟩
+  · rw [readAtShared_unfold P s o n _ hc h, readAt_unfold P s o n reply hc h]
+    simp only
+    generalize hcs : chunksFrom P (o + n - 1) (P.size + 1) (floorU o P.chunk) = cs
+    obtain ⟨_, hcl2, hcl3⟩ := classify_spec o n s.cache cs
+    -- both sides are a function of `fetchMissing`
+    have hshared : (if (prepared s o n cs).missing.isEmpty then (s, finish P (prepared s o n cs))
+        else fetchRangeShared P (prepared s o n cs) s (.lead reply :: rest)) =
+        ((fetchMissing P s (classify o n s.cache cs).2 reply).1,
+          match (fetchMissing P s (classify o n s.cache cs).2 reply).2 with
+          | none => SharedOut.err
+          | some got => finish P { prepared s o n cs with
+              ws := applyGot (prepared s o n cs).ws got }) := by
+      have hmiss : (prepared s o n cs).missing = (classify o n s.cache cs).2 := rfl
+      rw [hmiss]
+      split
+      · rename_i hemp
+        unfold fetchMissing
+        rw [if_pos hemp]
+        rfl
+      · simp only [fetchRangeShared, hmiss]
+        rcases fetchMissing P s (classify o n s.cache cs).2 reply with ⟨s', _ | got⟩ <;> rfl
+    rw [hshared]
+    have hlen := fetchMissing_len P s (classify o n s.cache cs).2 reply
+    generalize fetchMissing P s (classify o n s.cache cs).2 reply = R at hlen
+    obtain ⟨s1, r1⟩ := R
+    cases r1 with
+    | none => exact ⟨rfl, rfl⟩
+    | some got =>
+      refine ⟨rfl, ?_⟩
+      simp only
+      obtain ⟨hl1, hl2⟩ := hlen got rfl
+      unfold finish
+      simp only [prepared]
+      congr 1
+      symm
+      apply assemble_eq_assembleW
+      intro c hcm
+      unfold lookupData segFor
+      cases hf : (classify o n s.cache cs).1.find? (fun kv => decide (kv.1 = c)) with
+      | some kv => exact ⟨kv.2, rfl, rfl⟩
+      | none =>
+        simp only
+        have hfn := hf
+        rw [List.find?_eq_none] at hfn
+        have hcmiss : c ∈ (classify o n s.cache cs).2 := by
+          rcases hcl3 c hcm with ⟨d, hd⟩ | h'
+          · exact absurd (by simp) (hfn (c, d) hd)
+          · exact h'
+        obtain ⟨cd, hcd, hcdc⟩ := hl2 c hcmiss
+        cases hf2 : got.find? (fun kv => decide (kv.1 = c)) with
+        | none =>
+          rw [List.find?_eq_none] at hf2
+          exact absurd (by simp [hcdc]) (hf2 cd hcd)
+        | some kv =>
+          have hn : 0 < n := by omega
+          have ho : o ≤ P.size := by omega
+          have hb := (place_bounds P hc o n hn ho c (by rw [hcs]; exact hcl2 c hcmiss)).2.2
+          obtain ⟨w', hw1, hw2⟩ := applyGot_get_first o n c hb got (prepared s o n cs).ws
+            (newWriter o n c) kv hl1 (prepared_get s o n cs c hcmiss) rfl rfl
+            (by simp [newWriter]) hf2
+          simp only [prepared] at hw1
+          rw [hw1]
+          exact ⟨kv.2, rfl, hw2⟩
+
+/-! ### state invariants of the shared path under any cache loss -/
+
+theorem fetchRangeShared_state (P : Params) (B : Bytes) (Q : Chunk → Bytes → Prop)
+    (hQ : GoodQ P B Q) (hT : TruncClosed Q) (hc : 0 < P.chunk) :
+    ∀ (script : List Round) (pd : Pending) (s : St), InvQ P Q s → (∀ r ∈ script, r.Honest B) →
+      InvQ P Q (fetchRangeShared P pd s script).1 ∧ CovSub s (fetchRangeShared P pd s script).1 ∧
+      ∀ k buf, (fetchRangeShared P pd s script).2 = .ok k buf → k = min pd.n (P.size - pd.o) := by
+  intro script
+  induction script with
+  | nil =>
+    intro pd s hs _
+    exact ⟨hs, CovSub.refl s, by intro k buf h; simp [fetchRangeShared] at h⟩
+  | cons round rest ih =>
+    intro pd s hs hr
+    have hround := hr round (List.mem_cons_self ..)
+    cases round with
+    | lead reply =>
+      simp only [fetchRangeShared]
+      obtain ⟨h1, h2, _⟩ := fetchMissing_spec P B Q hQ hc s pd.missing reply hs hround
+      generalize fetchMissing P s pd.missing reply = R at h1 h2
+      obtain ⟨s1, r1⟩ := R
+      cases r1 with
+      | none => exact ⟨h1, h2, by intro k buf h; simp at h⟩
+      | some got =>
+        refine ⟨h1, h2, ?_⟩
+        intro k buf h
+        simp only [finish, SharedOut.ok.injEq] at h
+        rw [← h.1, adjust_eq]
+    | follow lr loss order =>
+      simp only [fetchRangeShared]
+      split
+      · exact ⟨hs, CovSub.refl s, by intro k buf h; simp at h⟩
+      · obtain ⟨h1, h2, _⟩ := fetchMissing_spec P B Q hQ hc s pd.missing lr hs hround
+        generalize fetchMissing P s pd.missing lr = R at h1 h2
+        obtain ⟨s1, r1⟩ := R
+        cases r1 with
+        | none => exact ⟨h1, h2, by intro k buf h; simp at h⟩
+        | some got =>
+          simp only
+          have h1' := lose_invQ P Q loss s1 h1 (Or.inr hT)
+          have hsub : CovSub s { s1 with cache := loss.foldl Cache.lose s1.cache } := h2
+          rcases copyInOrder (loss.foldl Cache.lose s1.cache) pd.ws order with ⟨ws', ok⟩
+          cases ok with
+          | true =>
+            refine ⟨h1', hsub, ?_⟩
+            intro k buf h
+            simp only [finish, SharedOut.ok.injEq] at h
+            rw [← h.1, adjust_eq]
+          | false =>
+            simp only
+            obtain ⟨i1, i2, i3⟩ := ih { pd with ws := ws' }
+              { s1 with cache := loss.foldl Cache.lose s1.cache } h1'
+              (fun r h => hr r (List.mem_cons_of_mem _ h))
+            exact ⟨i1, CovSub.trans hsub i2, i3⟩
+
+theorem readAtShared_state (P : Params) (B : Bytes) (Q : Chunk → Bytes → Prop)
+    (hQ : GoodQ P B Q) (hT : TruncClosed Q) (hc : 0 < P.chunk)
+    (s : St) (hs : InvQ P Q s) (o n : Nat) (script : List Round) (hr : ∀ r ∈ script, r.Honest B) :
+    InvQ P Q (readAtShared P s o n script).1 ∧ CovSub s (readAtShared P s o n script).1 ∧
+    ∀ k buf, (readAtShared P s o n script).2 = .ok k buf → k = min n (P.size - o) := by
+  by_cases h : n = 0 ∨ o > P.size
+  · unfold readAtShared
+    rw [if_pos h]
+    refine ⟨hs, CovSub.refl s, ?_⟩
+    intro k buf hk
+    cases hk
+    omega
+  · rw [readAtShared_unfold P s o n script hc h]
+    simp only
+    split
+    · refine ⟨hs, CovSub.refl s, ?_⟩
+      intro k buf hk
+      simp only [finish, SharedOut.ok.injEq] at hk
+      rw [← hk.1, adjust_eq]; rfl
+    · exact fetchRangeShared_state P B Q hQ hT hc script _ s hs hr
+
+/-! ### (2) the split `Cache`: pieces -/
+
+/-- Every piece is `(o + j·F, min F (E - i))`, non-empty, inside `[o, E)`. -/
+theorem mem_piecesFrom (F E : Nat) :
+    ∀ (fuel i : Nat) (p : Nat × Nat), p ∈ piecesFrom F E fuel i →
+      (∃ j, p.1 = i + j * F) ∧ p.1 < E ∧ p.2 = min F (E - p.1) := by
+  intro fuel
+  induction fuel with
+  | zero => intro i p h; simp [piecesFrom] at h
+  | succ fuel ih =>
+    intro i p h
+    unfold piecesFrom at h
+    split at h
+    · rename_i hlt
+      rcases List.mem_cons.mp h with rfl | h
+      · refine ⟨⟨0, by simp⟩, hlt, ?_⟩
+        simp only; split <;> omega
+      · obtain ⟨⟨j, hj⟩, h2, h3⟩ := ih (i + F) p h
+        exact ⟨⟨j + 1, by rw [hj, Nat.succ_mul]; omega⟩, h2, h3⟩
+    · simp at h
+
+/-- The pieces cover `[i, E)`. -/
+theorem piecesFrom_cover (F E : Nat) (hF : 0 < F) :
+    ∀ (fuel i x : Nat), E - i ≤ fuel → i ≤ x → x < E →
+      ∃ p ∈ piecesFrom F E fuel i, p.1 ≤ x ∧ x < p.1 + p.2 := by
+  intro fuel
+  induction fuel with
+  | zero => intro i x hf h1 h2; omega
+  | succ fuel ih =>
+    intro i x hf h1 h2
+    unfold piecesFrom
+    rw [if_pos (by omega)]
+    by_cases hx : x < i + F
+    · refine ⟨_, List.mem_cons_self .., h1, ?_⟩
+      simp only; split <;> omega
+    · obtain ⟨p, hp, hp1, hp2⟩ := ih (i + F) x (by omega) (by omega) h2
+      exact ⟨p, List.mem_cons_of_mem _ hp, hp1, hp2⟩
+
+/-- Two pieces that share a byte are the same piece. -/
+theorem piecesFrom_disjoint (F E : Nat) (fuel i : Nat) (p q : Nat × Nat)
+    (hp : p ∈ piecesFrom F E fuel i) (hq : q ∈ piecesFrom F E fuel i) (x : Nat)
+    (hxp : p.1 ≤ x ∧ x < p.1 + p.2) (hxq : q.1 ≤ x ∧ x < q.1 + q.2) : p = q := by
+  obtain ⟨⟨j1, h1⟩, h1b, h1c⟩ := mem_piecesFrom F E fuel i p hp
+  obtain ⟨⟨j2, h2⟩, h2b, h2c⟩ := mem_piecesFrom F E fuel i q hq
+  have hj : j1 = j2 := by
+    rcases Nat.lt_trichotomy j1 j2 with h | h | h
+    · have := Nat.mul_le_mul_right F (Nat.succ_le_of_lt h)
+      rw [Nat.succ_mul] at this
+      omega
+    · exact h
+    · have := Nat.mul_le_mul_right F (Nat.succ_le_of_lt h)
+      rw [Nat.succ_mul] at this
+      omega
+  subst hj
+  have e1 : p.1 = q.1 := by rw [h1, h2]
+  have e2 : p.2 = q.2 := by rw [h1c, h2c, e1]
+  exact Prod.ext e1 e2
+
+/-! ### chunks of a `cacheAt` / `ReadAt` range -/
+
+/-- The chunk list of `cacheAt(o, n)` / `ReadAt(o, n)`. -/
+def rangeChunks (P : Params) (o n : Nat) : List Chunk :=
+  chunksFrom P (o + n - 1) (P.size + 1) (floorU o P.chunk)
+
+theorem mem_chunkList_iff (P : Params) (hc : 0 < P.chunk) (b e : Nat) (hb : b % P.chunk = 0)
+    (ch : Chunk) : ch ∈ chunkList P b e ↔ (GridChunk P ch ∧ b ≤ ch.b ∧ ch.b ≤ e) := by
+  constructor
+  · exact gridChunk_of_mem_chunkList P hc b e hb ch
+  · rintro ⟨hg, h1, h2⟩
+    rw [mem_chunkList]
+    have hdiv : (ch.b - b) / P.chunk * P.chunk = ch.b - b :=
+      Nat.div_mul_cancel (Nat.dvd_of_mod_eq_zero (by
+        rw [Nat.sub_mod_eq_zero_of_mod_eq (by rw [hg.1, hb])]))
+    refine ⟨(ch.b - b) / P.chunk, ?_, ?_⟩
+    · rw [lt_numChunks_iff P hc, hdiv]
+      have := hg.2.1
+      omega
+    · rw [hdiv]
+      have : b + (ch.b - b) = ch.b := by omega
+      rw [this]; exact hg.eq_chunkAt
+
+/-- A grid chunk belongs to the range `(o, n)` iff it meets the byte interval `[o, o+n)`. -/
+theorem mem_rangeChunks (P : Params) (hc : 0 < P.chunk) (o n : Nat) (hn : 0 < n) (ch : Chunk) :
+    ch ∈ rangeChunks P o n ↔ (GridChunk P ch ∧ o < ch.b + P.chunk ∧ ch.b < o + n) := by
+  unfold rangeChunks
+  rw [chunksFrom_eq_chunkList P hc _ _ _ (by omega),
+    mem_chunkList_iff P hc _ _ (floorU_mod ..)]
+  have h1 := floorU_le o P.chunk
+  have h2 := lt_floorU_add o P.chunk hc
+  constructor
+  · rintro ⟨hg, ha, hb⟩; exact ⟨hg, by omega, by omega⟩
+  · rintro ⟨hg, ha, hb⟩
+    refine ⟨hg, ?_, by omega⟩
+    by_cases h : floorU o P.chunk ≤ ch.b
+    · exact h
+    · have := aligned_add_le hg.1 (floorU_mod o P.chunk) (by omega)
+      omega
+
+/-- Within one range every chunk occurs once (starts strictly increase). -/
+theorem rangeChunks_sorted (P : Params) (hc : 0 < P.chunk) (o n : Nat) :
+    (rangeChunks P o n).Pairwise (fun a c => a.b < c.b) := by
+  unfold rangeChunks
+  rw [chunksFrom_eq_chunkList P hc _ _ _ (by omega)]
+  unfold chunkList
+  rw [List.pairwise_map]
+  apply List.Pairwise.imp _ List.pairwise_lt_range
+  intro a b hab
+  simp only [chunkAt]
+  have := Nat.mul_lt_mul_of_pos_right hab hc
+  omega
+
+theorem cacheAt_walk (P : Params) (hc : 0 < P.chunk) (o n : Nat) :
+    walkChunks P (floorU o P.chunk) (ceilU (o + n - 1) P.chunk - 1) = some (rangeChunks P o n) :=
+  walk_readAt P hc o n
+
+/-- The pieces of the split `Cache(o, n)`. -/
+theorem cacheCalls_split (P : Params) (prefetch o n : Nat) (h : P.chunk < prefetch) :
+    cacheCalls P prefetch o n = piecesFrom (P.chunk * (prefetch / P.chunk)) (o + n) (n + 1) o := by
+  unfold cacheCalls
+  rw [if_neg (by omega)]
+
+theorem fetchSize_pos (P : Params) (hc : 0 < P.chunk) (prefetch : Nat) (h : P.chunk < prefetch) :
+    0 < P.chunk * (prefetch / P.chunk) :=
+  Nat.mul_pos hc (Nat.div_pos (by omega) hc)
+
+/-- The chunks of the pieces are, as a set, the chunks of the whole range. -/
+theorem cacheCalls_chunks (P : Params) (hc : 0 < P.chunk) (prefetch o n : Nat)
+    (h : P.chunk < prefetch) (hn : 0 < n) (ch : Chunk) :
+    ch ∈ rangeChunks P o n ↔
+      ∃ p ∈ cacheCalls P prefetch o n, ch ∈ rangeChunks P p.1 p.2 := by
+  rw [cacheCalls_split P prefetch o n h]
+  have hF := fetchSize_pos P hc prefetch h
+  rw [mem_rangeChunks P hc o n hn]
+  constructor
+  · rintro ⟨hg, h1, h2⟩
+    -- a byte of the chunk inside [o, o+n)
+    obtain ⟨p, hp, hp1, hp2⟩ := piecesFrom_cover _ (o + n) hF (n + 1) o (max o ch.b)
+      (by omega) (by omega) (by omega)
+    obtain ⟨_, hpE, hpl⟩ := mem_piecesFrom _ _ _ _ p hp
+    refine ⟨p, hp, ?_⟩
+    rw [mem_rangeChunks P hc p.1 p.2 (by omega)]
+    exact ⟨hg, by omega, by omega⟩
+  · rintro ⟨p, hp, hm⟩
+    obtain ⟨⟨j, hj⟩, hpE, hpl⟩ := mem_piecesFrom _ _ _ _ p hp
+    rw [mem_rangeChunks P hc p.1 p.2 (by omega)] at hm
+    obtain ⟨hg, h1, h2⟩ := hm
+    have : 0 ≤ j * (P.chunk * (prefetch / P.chunk)) := Nat.zero_le _
+    exact ⟨hg, by omega, by omega⟩
+
+/-- For a chunk-aligned offset the pieces' chunk sets are pairwise disjoint: every chunk of the
+range is handled by exactly one `cacheAt`. -/
+theorem cacheCalls_disjoint (P : Params) (hc : 0 < P.chunk) (prefetch o n : Nat)
+    (h : P.chunk < prefetch) (ho : o % P.chunk = 0) (p q : Nat × Nat)
+    (hp : p ∈ cacheCalls P prefetch o n) (hq : q ∈ cacheCalls P prefetch o n) (ch : Chunk)
+    (h1 : ch ∈ rangeChunks P p.1 p.2) (h2 : ch ∈ rangeChunks P q.1 q.2) : p = q := by
+  rw [cacheCalls_split P prefetch o n h] at hp hq
+  have hF := fetchSize_pos P hc prefetch h
+  obtain ⟨⟨j1, hj1⟩, hpE, hpl⟩ := mem_piecesFrom _ _ _ _ p hp
+  obtain ⟨⟨j2, hj2⟩, hqE, hql⟩ := mem_piecesFrom _ _ _ _ q hq
+  rw [mem_rangeChunks P hc p.1 p.2 (by omega)] at h1
+  rw [mem_rangeChunks P hc q.1 q.2 (by omega)] at h2
+  -- piece starts are chunk aligned, so `start < ch.b + chunk` means `start ≤ ch.b`
+  have hal : ∀ j, (o + j * (P.chunk * (prefetch / P.chunk))) % P.chunk = 0 := by
+    intro j
+    rw [← Nat.mul_assoc, Nat.mul_comm j P.chunk, Nat.mul_assoc, Nat.add_mul_mod_self_left]
+    exact ho
+  have hp1 : p.1 ≤ ch.b := by
+    by_cases hh : p.1 ≤ ch.b
+    · exact hh
+    · have hpa : p.1 % P.chunk = 0 := by rw [hj1]; exact hal j1
+      have := aligned_add_le h1.1.1 hpa (by omega); omega
+  have hq1 : q.1 ≤ ch.b := by
+    by_cases hh : q.1 ≤ ch.b
+    · exact hh
+    · have hqa : q.1 % P.chunk = 0 := by rw [hj2]; exact hal j2
+      have := aligned_add_le h2.1.1 hqa (by omega); omega
+  exact piecesFrom_disjoint _ _ _ _ p q hp hq ch.b ⟨hp1, h1.2.2⟩ ⟨hq1, h2.2.2⟩
+
+/-! ### fetched coverage of `cacheAt` -/
+
+/-- Every cached chunk is inside the fetched coverage (true along every history from the empty
+state: an entry is only ever added together with its region, coverage never shrinks). -/
+def CacheCovered (s : St) : Prop :=
+  ∀ c d, s.cache.get c = some d → ∀ x : Int, (c.b : Int) ≤ x → x ≤ c.e → cov x s.fetched
+
+/-- Everything newly covered lies in `[lo, hi]` (and in the blob). -/
+def NewWithin (P : Params) (lo hi : Nat) (s s' : St) : Prop :=
+  ∀ x : Int, cov x s'.fetched → cov x s.fetched ∨ ((lo : Int) ≤ x ∧ x ≤ hi ∧ x < P.size)
+
+/-- Every delivered chunk is covered. -/
+def GotCovered (s' : St) (got : List (Chunk × Bytes)) : Prop :=
+  ∀ cd ∈ got, ∀ x : Int, (cd.1.b : Int) ≤ x → x ≤ cd.1.e → cov x s'.fetched
+
+theorem NewWithin.refl (P : Params) (lo hi : Nat) (s : St) : NewWithin P lo hi s s :=
+  fun _ h => Or.inl h
+
+theorem NewWithin.trans {P : Params} {lo hi : Nat} {a b c : St} (h1 : NewWithin P lo hi a b)
+    (h2 : NewWithin P lo hi b c) : NewWithin P lo hi a c := by
+  intro x hx
+  rcases h2 x hx with h | h
+  · exact h1 x h
+  · exact Or.inr h
+
+theorem cacheCovered_init : CacheCovered {} := by
+  intro c d h; simp [Cache.get] at h
+
+theorem cov_commit (P : Params) (Q : Chunk → Bytes → Prop) (hc : 0 < P.chunk) (s : St)
+    (hs : InvQ P Q s) (ch : Chunk) (d : Bytes) (hg : GridChunk P ch) (hcc : CacheCovered s) :
+    let s1 : St := { cache := s.cache.put ch d, fetched := add s.fetched ch.toRegion }
+    CacheCovered s1 ∧ (∀ x : Int, (ch.b : Int) ≤ x → x ≤ ch.e → cov x s1.fetched) ∧
+    ∀ lo hi : Nat, lo ≤ ch.b → ch.e ≤ hi → NewWithin P lo hi s s1 := by
+  have hle := hg.le hc
+  have hr : ch.toRegion.b ≤ ch.toRegion.e := by simp only [Chunk.toRegion]; omega
+  have hcov := SV.Props.C06.add_cov s.fetched ch.toRegion hs.wf hr
+  simp only
+  refine ⟨?_, ?_, ?_⟩
+  · intro c' d' h x h1 h2
+    rw [hcov]
+    rcases Cache.get_put_some _ _ _ _ _ h with h | ⟨rfl, rfl⟩
+    · exact Or.inl (hcc c' d' h x h1 h2)
+    · exact Or.inr ⟨by simpa [Chunk.toRegion] using h1, by simpa [Chunk.toRegion] using h2⟩
+  · intro x h1 h2
+    rw [hcov]
+    exact Or.inr ⟨by simpa [Chunk.toRegion] using h1, by simpa [Chunk.toRegion] using h2⟩
+  · intro lo hi hlo hhi x hx
+    rw [hcov] at hx
+    rcases hx with h | ⟨h1, h2⟩
+    · exact Or.inl h
+    · simp only [Chunk.toRegion] at h1 h2
+      exact Or.inr ⟨by omega, by omega, by omega⟩
+
+theorem storeChunks_cov (P : Params) (B : Bytes) (Q : Chunk → Bytes → Prop) (hQ : GoodQ P B Q)
+    (hc : 0 < P.chunk) (e lo hi : Nat) :
+    ∀ fuel i (s : St) (stream : Bytes), InvQ P Q s → i % P.chunk = 0 →
+      (i < P.size → stream = slice B i stream.length) → CacheCovered s →
+      CacheCovered (storeChunks s stream (chunksFrom P e fuel i)).1 ∧
+      (∀ got, (storeChunks s stream (chunksFrom P e fuel i)).2 = some got →
+        GotCovered (storeChunks s stream (chunksFrom P e fuel i)).1 got) ∧
+      (lo ≤ i → ceilU e P.chunk - 1 ≤ hi →
+        NewWithin P lo hi s (storeChunks s stream (chunksFrom P e fuel i)).1) := by
+  intro fuel
+  induction fuel with
+  | zero =>
+    intro i s stream _ _ _ hcc
+    simp only [chunksFrom, storeChunks]
+    exact ⟨hcc, (by intro got h; cases h; intro cd hcd; simp at hcd),
+      fun _ _ => NewWithin.refl P lo hi s⟩
+  | succ fuel ih =>
+    intro i s stream hs hal0 hst hcc
+    unfold chunksFrom
+    split
+    · rename_i hcond
+      rw [storeChunks_cons]
+      split
+      · exact ⟨hcc, (by intro got h; cases h), fun _ _ => NewWithin.refl P lo hi s⟩
+      · rename_i hlen
+        have hg : GridChunk P ⟨i, min (i + P.chunk - 1) (P.size - 1)⟩ := ⟨hal0, hcond.2, rfl⟩
+        have hst' := hst hcond.2
+        have hd : stream.take (Chunk.size ⟨i, min (i + P.chunk - 1) (P.size - 1)⟩)
+            = slice B i (Chunk.size ⟨i, min (i + P.chunk - 1) (P.size - 1)⟩) := by
+          conv => lhs; rw [hst']
+          rw [take_slice]; congr 1; omega
+        obtain ⟨hinv', _⟩ := inv_commit P B Q hQ hc s _ _ hs hg hd
+        obtain ⟨c1, c2, c3⟩ := cov_commit P Q hc s hs _
+          (stream.take (Chunk.size ⟨i, min (i + P.chunk - 1) (P.size - 1)⟩)) hg hcc
+        have hal : (i + P.chunk) % P.chunk = 0 := by rw [Nat.add_mod_right]; exact hal0
+        have hnext : i + P.chunk < P.size →
+            stream.drop (Chunk.size ⟨i, min (i + P.chunk - 1) (P.size - 1)⟩) =
+              slice B (i + P.chunk)
+                (stream.drop (Chunk.size ⟨i, min (i + P.chunk - 1) (P.size - 1)⟩)).length := by
+          intro hlt
+          have hsz : Chunk.size ⟨i, min (i + P.chunk - 1) (P.size - 1)⟩ = P.chunk := by
+            simp only [Chunk.size]; omega
+          rw [hsz]
+          conv => lhs; rw [hst']
+          rw [drop_slice, List.length_drop]
+        obtain ⟨k1, k2, k3⟩ := ih (i + P.chunk) _ _ hinv' hal hnext c1
+        obtain ⟨_, ksub, _⟩ := storeChunks_spec P B Q hQ hc e fuel (i + P.chunk) _ _ hinv' hal hnext
+        simp only at k1 k2 k3 ksub ⊢
+        refine ⟨k1, ?_, ?_⟩
+        · intro got hgot
+          simp only [Option.map_eq_some_iff] at hgot
+          obtain ⟨got', hg', rfl⟩ := hgot
+          intro cd hcd
+          rcases List.mem_cons.mp hcd with rfl | hcd
+          · intro x h1 h2; exact ksub x (c2 x h1 h2)
+          · exact k2 got' hg' cd hcd
+        · intro hlo hhi
+          have hfl := aligned_le_floorU hal0 hcond.1
+          rw [ceilU_eq] at hhi
+          exact NewWithin.trans (c3 lo hi hlo (by simp only; omega)) (k3 (by omega) (by rw [ceilU_eq]; exact hhi))
+    · simp only [storeChunks]
+      exact ⟨hcc, (by intro got h; cases h; intro cd hcd; simp at hcd),
+        fun _ _ => NewWithin.refl P lo hi s⟩
+
+/-- Every part of the reply lies inside `[lo, hi]` (as a chunk span). -/
+def ReplyWithin (P : Params) (lo hi : Nat) : Reply → Prop
+  | .fail => True
+  | .parts ps => ∀ p ∈ ps, lo ≤ p.b ∧ ceilU p.e P.chunk - 1 ≤ hi
+
+theorem storeParts_cov (P : Params) (B : Bytes) (Q : Chunk → Bytes → Prop) (hQ : GoodQ P B Q)
+    (hc : 0 < P.chunk) (lo hi : Nat) :
+    ∀ (ps : List Part) (s : St), InvQ P Q s → (∀ p ∈ ps, HonestPart B p) → CacheCovered s →
+      CacheCovered (storeParts P s ps).1 ∧
+      (∀ got, (storeParts P s ps).2 = some got → GotCovered (storeParts P s ps).1 got) ∧
+      ((∀ p ∈ ps, lo ≤ p.b ∧ ceilU p.e P.chunk - 1 ≤ hi) →
+        NewWithin P lo hi s (storeParts P s ps).1) := by
+  intro ps
+  induction ps with
+  | nil =>
+    intro s _ _ hcc
+    simp only [storeParts]
+    exact ⟨hcc, (by intro got h; cases h; intro cd hcd; simp at hcd),
+      fun _ => NewWithin.refl P lo hi s⟩
+  | cons p ps ih =>
+    intro s hs hh hcc
+    rw [storeParts_cons]
+    split
+    · exact ⟨hcc, (by intro got h; cases h), fun _ => NewWithin.refl P lo hi s⟩
+    · rename_i hal
+      have hal : p.b % P.chunk = 0 := by simpa using hal
+      have hp : HonestPart B p := hh p (List.mem_cons_self ..)
+      obtain ⟨h1, _, _⟩ := storeChunks_spec P B Q hQ hc p.e (P.size + 1) p.b s p.data hs hal
+        (fun _ => hp)
+      obtain ⟨c1, c2, c3⟩ := storeChunks_cov P B Q hQ hc p.e lo hi (P.size + 1) p.b s p.data hs hal
+        (fun _ => hp) hcc
+      simp only
+      generalize storeChunks s p.data (chunksFrom P p.e (P.size + 1) p.b) = R at h1 c1 c2 c3
+      obtain ⟨s1, r1⟩ := R
+      cases r1 with
+      | none =>
+        refine ⟨c1, (by intro got h; cases h), ?_⟩
+        intro hw
+        have := hw p (List.mem_cons_self ..)
+        exact c3 this.1 this.2
+      | some got1 =>
+        simp only
+        have hh' : ∀ p' ∈ ps, HonestPart B p' := fun p' hp' => hh p' (List.mem_cons_of_mem _ hp')
+        obtain ⟨k1, k2, k3⟩ := ih s1 h1 hh' c1
+        obtain ⟨_, ksub, _⟩ := storeParts_spec P B Q hQ hc ps s1 h1 hh'
+        refine ⟨k1, ?_, ?_⟩
+        · intro got hgot
+          simp only [Option.map_eq_some_iff] at hgot
+          obtain ⟨got', hg', rfl⟩ := hgot
+          intro cd hcd
+          rcases List.mem_append.mp hcd with hcd | hcd
+          · intro x h1' h2'; exact ksub x (c2 got1 rfl cd hcd x h1' h2')
+          · exact k2 got' hg' cd hcd
+        · intro hw
+          have := hw p (List.mem_cons_self ..)
+          exact NewWithin.trans (c3 this.1 this.2)
+            (k3 (fun p' hp' => hw p' (List.mem_cons_of_mem _ hp')))
+
+theorem fetchMissing_cov (P : Params) (B : Bytes) (Q : Chunk → Bytes → Prop) (hQ : GoodQ P B Q)
+    (hc : 0 < P.chunk) (lo hi : Nat) (s : St) (missing : List Chunk) (reply : Reply)
+    (hs : InvQ P Q s) (hr : HonestReply B reply) (hcc : CacheCovered s) :
+    CacheCovered (fetchMissing P s missing reply).1 ∧
+    (∀ got, (fetchMissing P s missing reply).2 = some got →
+      GotCovered (fetchMissing P s missing reply).1 got) ∧
+    (ReplyWithin P lo hi reply → NewWithin P lo hi s (fetchMissing P s missing reply).1) := by
+  unfold fetchMissing
+  split
+  · exact ⟨hcc, (by intro got h; cases h; intro cd hcd; simp at hcd),
+      fun _ => NewWithin.refl P lo hi s⟩
+  · cases reply with
+    | fail => exact ⟨hcc, (by intro got h; cases h), fun _ => NewWithin.refl P lo hi s⟩
+    | parts ps =>
+      simp only
+      obtain ⟨c1, c2, c3⟩ := storeParts_cov P B Q hQ hc lo hi ps s hs hr hcc
+      generalize storeParts P s ps = R at c1 c2 c3
+      obtain ⟨s1, r1⟩ := R
+      cases r1 with
+      | none => exact ⟨c1, (by intro got h; cases h), c3⟩
+      | some got1 =>
+        simp only
+        split
+        · exact ⟨c1, (by intro got h; cases h; exact c2 got1 rfl), c3⟩
+        · exact ⟨c1, (by intro got h; cases h), c3⟩
+
+/-- One `cacheAt`: on success every chunk of its range is covered afterwards. -/
+theorem cacheAt_cov (P : Params) (B : Bytes) (Q : Chunk → Bytes → Prop) (hQ : GoodQ P B Q)
+    (hc : 0 < P.chunk) (lo hi : Nat) (s : St) (o n : Nat) (reply : Reply)
+    (hs : InvQ P Q s) (hr : HonestReply B reply) (hcc : CacheCovered s) :
+    CacheCovered (cacheAt P s o n reply).1 ∧
+    ((cacheAt P s o n reply).2 = true → ∀ ch ∈ rangeChunks P o n, ∀ x : Int,
+      (ch.b : Int) ≤ x → x ≤ ch.e → cov x (cacheAt P s o n reply).1.fetched) ∧
+    (ReplyWithin P lo hi reply → NewWithin P lo hi s (cacheAt P s o n reply).1) := by
+  unfold cacheAt
+  rw [cacheAt_walk P hc]
+  simp only
+  obtain ⟨_, hsub, h3⟩ := fetchMissing_spec P B Q hQ hc s
+    ((rangeChunks P o n).filter (fun c => (s.cache.get c).isNone)) reply hs hr
+  obtain ⟨c1, c2, c3⟩ := fetchMissing_cov P B Q hQ hc lo hi s
+    ((rangeChunks P o n).filter (fun c => (s.cache.get c).isNone)) reply hs hr hcc
+  generalize fetchMissing P s ((rangeChunks P o n).filter (fun c => (s.cache.get c).isNone)) reply
+    = R at hsub h3 c1 c2 c3
+  obtain ⟨s1, r1⟩ := R
+  cases r1 with
+  | none => exact ⟨c1, (by intro h; simp at h), c3⟩
+  | some got =>
+    simp only
+    refine ⟨c1, ?_, c3⟩
+    intro _ ch hch x h1 h2
+    cases hget : s.cache.get ch with
+    | some d => exact hsub x (hcc ch d hget x h1 h2)
+    | none =>
+      have hm : ch ∈ (rangeChunks P o n).filter (fun c => (s.cache.get c).isNone) :=
+        List.mem_filter.mpr ⟨hch, by simp [hget]⟩
+      obtain ⟨cd, hcd, rfl⟩ := (h3 got rfl).2 ch hm
+      exact c2 got rfl cd hcd x h1 h2
+
+theorem runCalls_cons (P : Params) (s : St) (o n : Nat) (r : Reply)
+    (rest : List ((Nat × Nat) × Reply)) :
+    runCalls P s (((o, n), r) :: rest) =
+      ((runCalls P (cacheAt P s o n r).1 rest).1,
+        (cacheAt P s o n r).2 && (runCalls P (cacheAt P s o n r).1 rest).2) := rfl
+
+/-- Any sequence of `cacheAt` calls. -/
+theorem runCalls_cov (P : Params) (B : Bytes) (Q : Chunk → Bytes → Prop) (hQ : GoodQ P B Q)
+    (hc : 0 < P.chunk) (lo hi : Nat) :
+    ∀ (calls : List ((Nat × Nat) × Reply)) (s : St), InvQ P Q s → CacheCovered s →
+      (∀ call ∈ calls, HonestReply B call.2) →
+      InvQ P Q (runCalls P s calls).1 ∧ CovSub s (runCalls P s calls).1 ∧
+      CacheCovered (runCalls P s calls).1 ∧
+      ((runCalls P s calls).2 = true → ∀ call ∈ calls, ∀ ch ∈ rangeChunks P call.1.1 call.1.2,
+        ∀ x : Int, (ch.b : Int) ≤ x → x ≤ ch.e → cov x (runCalls P s calls).1.fetched) ∧
+      ((∀ call ∈ calls, ReplyWithin P lo hi call.2) → NewWithin P lo hi s (runCalls P s calls).1) := by
+  intro calls
+  induction calls with
+  | nil =>
+    intro s hs hcc _
+    exact ⟨hs, CovSub.refl s, hcc, (by intro _ call h; simp at h), fun _ => NewWithin.refl P lo hi s⟩
+  | cons call rest ih =>
+    intro s hs hcc hh
+    obtain ⟨⟨o, n⟩, r⟩ := call
+    rw [runCalls_cons]
+    have hr : HonestReply B r := hh ((o, n), r) (List.mem_cons_self ..)
+    obtain ⟨a1, a2⟩ := cacheAt_specQ P B Q hQ hc s hs o n r hr
+    obtain ⟨b1, b2, b3⟩ := cacheAt_cov P B Q hQ hc lo hi s o n r hs hr hcc
+    obtain ⟨i1, i2, i3, i4, i5⟩ := ih (cacheAt P s o n r).1 a1 b1
+      (fun c h => hh c (List.mem_cons_of_mem _ h))
+    simp only
+    refine ⟨i1, CovSub.trans a2 i2, i3, ?_, ?_⟩
+    · intro hok call hcall ch hch x h1 h2
+      rw [Bool.and_eq_true] at hok
+      rcases List.mem_cons.mp hcall with rfl | hcall
+      · exact i2 x (b2 hok.1 ch hch x h1 h2)
+      · exact i4 hok.2 call hcall ch hch x h1 h2
+    · intro hw
+      exact NewWithin.trans (b3 (hw _ (List.mem_cons_self ..)))
+        (i5 (fun c h => hw c (List.mem_cons_of_mem _ h)))
+
+/-! ### the split `Cache`: main lemmas -/
+
+theorem cacheSplit_cov (P : Params) (B : Bytes) (Q : Chunk → Bytes → Prop) (hQ : GoodQ P B Q)
+    (hc : 0 < P.chunk) (prefetch o n : Nat) (h : P.chunk < prefetch) (hn : 0 < n)
+    (s : St) (hs : InvQ P Q s) (hcc : CacheCovered s) (calls : List ((Nat × Nat) × Reply))
+    (hperm : (calls.map (·.1)).Perm (cacheCalls P prefetch o n))
+    (hh : ∀ call ∈ calls, HonestReply B call.2) :
+    InvQ P Q (runCalls P s calls).1 ∧ CovSub s (runCalls P s calls).1 ∧
+    CacheCovered (runCalls P s calls).1 ∧
+    ((runCalls P s calls).2 = true → ∀ ch ∈ rangeChunks P o n, ∀ x : Int,
+      (ch.b : Int) ≤ x → x ≤ ch.e → cov x (runCalls P s calls).1.fetched) ∧
+    ((∀ call ∈ calls, ReplyWithin P (floorU o P.chunk) (ceilU (o + n - 1) P.chunk - 1) call.2) →
+      (runCalls P s calls).2 = true →
+      ∀ x : Int, cov x (runCalls P s calls).1.fetched ↔
+        (cov x s.fetched ∨ ((floorU o P.chunk : Int) ≤ x ∧
+          x ≤ (ceilU (o + n - 1) P.chunk - 1 : Nat) ∧ x < P.size))) := by
+  obtain ⟨i1, i2, i3, i4, i5⟩ := runCalls_cov P B Q hQ hc (floorU o P.chunk)
+    (ceilU (o + n - 1) P.chunk - 1) calls s hs hcc hh
+  have hlow : (runCalls P s calls).2 = true → ∀ ch ∈ rangeChunks P o n, ∀ x : Int,
+      (ch.b : Int) ≤ x → x ≤ ch.e → cov x (runCalls P s calls).1.fetched := by
+    intro hok ch hch x h1 h2
+    obtain ⟨p, hp, hpc⟩ := (cacheCalls_chunks P hc prefetch o n h hn ch).mp hch
+    have : p ∈ calls.map (·.1) := hperm.mem_iff.mpr hp
+    obtain ⟨call, hcall, rfl⟩ := List.mem_map.mp this
+    exact i4 hok call hcall ch hpc x h1 h2
+  refine ⟨i1, i2, i3, hlow, ?_⟩
+  intro hw hok x
+  constructor
+  · exact i5 hw x
+  · rintro (hx | ⟨h1, h2, h3⟩)
+    · exact i2 x hx
+    · have hx0 : 0 ≤ x := by omega
+      obtain ⟨m, rfl⟩ := Int.eq_ofNat_of_zero_le hx0
+      have hcover := (chunkList_cover P hc (floorU o P.chunk) (o + n - 1) (floorU_mod ..) m).mpr
+        ⟨by omega, by omega, by omega⟩
+      obtain ⟨ch, hch, hb, he⟩ := hcover
+      have hch' : ch ∈ rangeChunks P o n := by
+        unfold rangeChunks
+        rw [chunksFrom_eq_chunkList P hc _ _ _ (by omega)]; exact hch
+      exact hlow hok ch hch' m (by omega) (by omega)
+
+/-- Whatever the cache holds when a piece runs, a chunk of the range that is missing then is among
+the chunks that piece fetches, and its request (multi or single range) covers it. -/
+theorem cacheSplit_requests (P : Params) (hc : 0 < P.chunk) (prefetch o n : Nat)
+    (h : P.chunk < prefetch) (hn : 0 < n) (ch : Chunk) (hch : ch ∈ rangeChunks P o n) :
+    ∃ p ∈ cacheCalls P prefetch o n, ch ∈ rangeChunks P p.1 p.2 ∧
+      ∀ (cache : Cache), cache.get ch = none → ∀ (single : Bool) (x : Int),
+        (ch.b : Int) ≤ x → x ≤ ch.e →
+        cov x (requestRanges single
+          ((rangeChunks P p.1 p.2).filter (fun c => (cache.get c).isNone))) := by
+  obtain ⟨p, hp, hpc⟩ := (cacheCalls_chunks P hc prefetch o n h hn ch).mp hch
+  refine ⟨p, hp, hpc, ?_⟩
+  intro cache hget single x h1 h2
+  apply request_covers _ _ single ch (List.mem_filter.mpr ⟨hpc, by simp [hget]⟩) x h1 h2
+  intro c hcm
+  have hcm' := (List.mem_filter.mp hcm).1
+  unfold rangeChunks at hcm'
+  rw [chunksFrom_eq_chunkList P hc _ _ _ (by omega)] at hcm'
+  exact ((gridChunk_of_mem_chunkList P hc _ _ (floorU_mod ..) c hcm').1.le hc).1
+
+theorem readAtShared_outOfFuel (P : Params) (hc : 0 < P.chunk) (s : St) (o n : Nat)
+    (script : List Round) (h : (readAtShared P s o n script).2 = .outOfFuel) :
+    ∀ r ∈ script, ∃ lr loss order, r = .follow lr loss order := by
+  by_cases h0 : n = 0 ∨ o > P.size
+  · unfold readAtShared at h; rw [if_pos h0] at h; simp at h
+  · rw [readAtShared_unfold P s o n script hc h0] at h
+    simp only at h
+    split at h
+    · simp [finish] at h
+    · exact fetchRangeShared_outOfFuel P script _ s h
+
+/-! ### a repaired retry: fresh stream position for every attempt
+
+`fetchRangeSharedFixed` is NOT a model of the Go code: it is `fetchRangeShared` with the one change
+that a retry starts with `bytesWriter.current = 0` again.  With that change the shared path is
+exact even when the cache returns truncated entries. -/
+
+def resetWs (ws : Writers) : Writers := ws.map fun kv => (kv.1, { kv.2 with current := 0 })
+
+def fetchRangeSharedFixed (P : Params) (pd : Pending) : St → List Round → St × SharedOut
+  | s, [] => (s, .outOfFuel)
+  | s, .lead reply :: _ =>
+    match fetchMissing P s pd.missing reply with
+    | (s', none) => (s', .err)
+    | (s', some got) => (s', finish P { pd with ws := applyGot pd.ws got })
+  | s, .follow leaderReply loss order :: rest =>
+    if ¬ order.isPerm pd.missing then (s, .badScript)
+    else
+      match fetchMissing P s pd.missing leaderReply with
+      | (s', none) => (s', .err)
+      | (s', some _) =>
+        let s'' : St := { s' with cache := loss.foldl Cache.lose s'.cache }
+        match copyInOrder s''.cache pd.ws order with
+        | (ws', true) => (s'', finish P { pd with ws := ws' })
+        | (ws', false) => fetchRangeSharedFixed P { pd with ws := resetWs ws' } s'' rest
+
+/-- The writer has the right window (whatever it has received). -/
+def WShape (o n : Nat) (cw : Chunk × BW) : Prop :=
+  cw.2.destOff = (place o n cw.1).lower ∧ cw.2.dest.length = (place o n cw.1).expected
+
+def ShapeOK (o n : Nat) (missing : List Chunk) (ws : Writers) : Prop :=
+  ws.map (·.1) = missing ∧ ∀ cw ∈ ws, WShape o n cw
+
+theorem WOK.shape {B : Bytes} {o n : Nat} {cw : Chunk × BW} (h : WOK B o n cw) : WShape o n cw :=
+  ⟨h.1, h.2.1⟩
+
+theorem WsOK.shape {B : Bytes} {o n : Nat} {missing : List Chunk} {ws : Writers}
+    (h : WsOK B o n missing ws) : ShapeOK o n missing ws :=
+  ⟨h.1, fun cw hcw => (h.2 cw hcw).shape⟩
+
+theorem shapeOK_set {o n : Nat} {missing : List Chunk} {ws : Writers} {c : Chunk} {w : BW}
+    (h : ShapeOK o n missing ws) (hw : WShape o n (c, w)) : ShapeOK o n missing (ws.set c w) := by
+  refine ⟨by rw [Writers.keys_set]; exact h.1, ?_⟩
+  intro cw hcw
+  rcases Writers.mem_set hcw with ⟨rfl, _⟩ | ⟨hm, _⟩
+  · exact hw
+  · exact h.2 cw hm
+
+theorem wsOK_reset (B : Bytes) (o n : Nat) (missing : List Chunk) (ws : Writers)
+    (h : ShapeOK o n missing ws) : WsOK B o n missing (resetWs ws) := by
+  refine ⟨?_, ?_⟩
+  · unfold resetWs
+    rw [List.map_map]
+    rw [← h.1]
+    apply List.map_congr_left
+    intro kv _; rfl
+  · intro cw hcw
+    unfold resetWs at hcw
+    obtain ⟨kv, hkv, rfl⟩ := List.mem_map.mp hcw
+    exact ⟨(h.2 kv hkv).1, (h.2 kv hkv).2, Or.inl rfl⟩
+
+/-- `copyFetchedChunks` for one chunk when entries may be truncated (`CachePrefixOK`): success
+still means a complete, correct copy; a failure may leave a partial stream in the writer. -/
+theorem copyChunk_prefix (P : Params) (B : Bytes) (hc : 0 < P.chunk) (hB : B.length = P.size)
+    (o n : Nat) (cache : Cache) (hcache : CachePrefixOK P B cache) (c : Chunk) (w : BW)
+    (hw : WOK B o n (c, w))
+    (hb : (place o n c).lower + (place o n c).expected ≤ c.size) :
+    WShape o n (c, (copyChunk cache c w).1) ∧
+    ((copyChunk cache c w).2 = true → WDone B o n (c, (copyChunk cache c w).1)) := by
+  unfold copyChunk
+  cases hget : cache.get c with
+  | none => exact ⟨hw.shape, fun h => by simp at h⟩
+  | some d =>
+    obtain ⟨hd, hg⟩ := hcache c d hget
+    simp only
+    obtain ⟨f1, _, f3⟩ := BW.write_fields w (d.take c.size)
+    refine ⟨⟨by simp only; rw [f1]; exact hw.1, by simp only; rw [f3]; exact hw.2.1⟩, ?_⟩
+    intro hok
+    simp only [decide_eq_true_eq] at hok
+    have htake : d.take c.size = slice B c.b c.size := by
+      conv => lhs; rw [hd]
+      rw [take_slice]; congr 1; omega
+    have hlen : (d.take c.size).length = c.size := by
+      rw [htake]; exact gridChunk_slice_length P B hc hB c hg
+    exact wdone_write B o n c w _ hw htake hlen hb
+
+theorem copyInOrder_prefix (P : Params) (B : Bytes) (hc : 0 < P.chunk) (hB : B.length = P.size)
+    (o n : Nat) (missing : List Chunk)
+    (hb : ∀ c ∈ missing, (place o n c).lower + (place o n c).expected ≤ c.size)
+    (cache : Cache) (hcache : CachePrefixOK P B cache) :
+    ∀ (order : List Chunk) (ws : Writers), WsOK B o n missing ws →
+      ShapeOK o n missing (copyInOrder cache ws order).1 ∧
+      ((copyInOrder cache ws order).2 = true →
+        WsOK B o n missing (copyInOrder cache ws order).1 ∧
+        (∀ c', DoneKey B o n ws c' → DoneKey B o n (copyInOrder cache ws order).1 c') ∧
+        ∀ c ∈ order, DoneKey B o n (copyInOrder cache ws order).1 c) := by
+  intro order
+  induction order with
+  | nil =>
+    intro ws h
+    exact ⟨h.shape, fun _ => ⟨h, fun _ h' => h', fun c hc' => by simp at hc'⟩⟩
+  | cons c rest ih =>
+    intro ws hws
+    unfold copyInOrder
+    cases hget : ws.get c with
+    | none =>
+      simp only
+      obtain ⟨i0, i⟩ := ih ws hws
+      refine ⟨i0, fun hok => ?_⟩
+      obtain ⟨i1, i2, i3⟩ := i hok
+      refine ⟨i1, i2, ?_⟩
+      intro c' hc'
+      rcases List.mem_cons.mp hc' with rfl | hc'
+      · intro cw hcw hk
+        have : c' ∈ ws.map (·.1) := by
+          rw [hws.1, ← i1.1]; exact List.mem_map.mpr ⟨cw, hcw, hk⟩
+        exact absurd hget (Writers.get_ne_none this)
+      · exact i3 c' hc'
+    | some w =>
+      simp only
+      have hm := Writers.get_mem hget
+      have hcm : c ∈ missing := by rw [← hws.1]; exact List.mem_map.mpr ⟨(c, w), hm, rfl⟩
+      obtain ⟨e1, e2⟩ := copyChunk_prefix P B hc hB o n cache hcache c w (hws.2 _ hm) (hb c hcm)
+      rcases hcc : copyChunk cache c w with ⟨w', ok⟩
+      rw [hcc] at e1 e2
+      cases ok with
+      | false =>
+        simp only
+        exact ⟨shapeOK_set hws.shape e1, fun h => by simp at h⟩
+      | true =>
+        simp only
+        have hd : WDone B o n (c, w') := e2 rfl
+        obtain ⟨i0, i⟩ := ih (ws.set c w') (wsOK_set hws hd.wok)
+        refine ⟨i0, fun hok => ?_⟩
+        obtain ⟨i1, i2, i3⟩ := i hok
+        refine ⟨i1, fun c' h' => i2 c' (doneKey_set hd h'), ?_⟩
+        intro c' hc'
+        rcases List.mem_cons.mp hc' with rfl | hc'
+        · exact i2 c' (doneKey_set_self hd)
+        · exact i3 c' hc'
+
+theorem fetchRangeSharedFixed_exact (P : Params) (B : Bytes) (hc : 0 < P.chunk)
+    (hB : B.length = P.size) :
+    ∀ (script : List Round) (pd : Pending) (s : St),
+      PendOK P B pd.o pd.n pd.cs pd.hits pd.missing → WsOK B pd.o pd.n pd.missing pd.ws →
+      InvQ P (QPrefix P B) s → (∀ r ∈ script, r.Honest B) →
+      InvQ P (QPrefix P B) (fetchRangeSharedFixed P pd s script).1 ∧
+      CovSub s (fetchRangeSharedFixed P pd s script).1 ∧
+      SharedExact P B pd.o pd.n (fetchRangeSharedFixed P pd s script).2 := by
+  intro script
+  induction script with
+  | nil =>
+    intro pd s _ _ hs _
+    exact ⟨hs, CovSub.refl s, by intro k buf h; simp [fetchRangeSharedFixed] at h⟩
+  | cons round rest ih =>
+    intro pd s hp hws hs hr
+    have hround := hr round (List.mem_cons_self ..)
+    cases round with
+    | lead reply =>
+      simp only [fetchRangeSharedFixed]
+      obtain ⟨h1, h2, h3⟩ := fetchMissing_spec P B _ (goodQ_prefix P B) hc s pd.missing reply
+        hs hround
+      generalize fetchMissing P s pd.missing reply = R at h1 h2 h3
+      obtain ⟨s1, r1⟩ := R
+      cases r1 with
+      | none => exact ⟨h1, h2, by intro k buf h; simp at h⟩
+      | some got =>
+        simp only
+        obtain ⟨hex, hall⟩ := h3 got rfl
+        obtain ⟨a1, _, a3⟩ := applyGot_exact P B hc hB pd.o pd.n pd.missing hp.bound got pd.ws hex hws
+        refine ⟨h1, h2, ?_⟩
+        apply sharedExact_finish P B { pd with ws := applyGot pd.ws got } hp a1
+        intro c hcm
+        obtain ⟨cd, hcd, rfl⟩ := hall c hcm
+        exact a3 cd hcd
+    | follow lr loss order =>
+      simp only [fetchRangeSharedFixed]
+      split
+      · exact ⟨hs, CovSub.refl s, by intro k buf h; simp at h⟩
+      · rename_i hperm
+        have hperm : order.Perm pd.missing := by
+          rw [← List.isPerm_iff]; simpa using hperm
+        obtain ⟨h1, h2, _⟩ := fetchMissing_spec P B _ (goodQ_prefix P B) hc s pd.missing lr
+          hs hround
+        generalize fetchMissing P s pd.missing lr = R at h1 h2
+        obtain ⟨s1, r1⟩ := R
+        cases r1 with
+        | none => exact ⟨h1, h2, by intro k buf h; simp at h⟩
+        | some got =>
+          simp only
+          have hinv := lose_invQ P _ loss s1 h1 (Or.inr (truncClosed_prefix P B))
+          have hsub : CovSub s { s1 with cache := loss.foldl Cache.lose s1.cache } := h2
+          obtain ⟨c0, c1⟩ := copyInOrder_prefix P B hc hB pd.o pd.n pd.missing hp.bound
+            (loss.foldl Cache.lose s1.cache) hinv.cacheQ order pd.ws hws
+          rcases hco : copyInOrder (loss.foldl Cache.lose s1.cache) pd.ws order with ⟨ws', ok⟩
+          rw [hco] at c0 c1
+          cases ok with
+          | true =>
+            simp only
+            obtain ⟨d1, _, d3⟩ := c1 rfl
+            refine ⟨hinv, hsub, ?_⟩
+            apply sharedExact_finish P B { pd with ws := ws' } hp d1
+            intro c hcm
+            exact d3 c (hperm.mem_iff.mpr hcm)
+          | false =>
+            simp only
+            obtain ⟨i1, i2, i3⟩ := ih { pd with ws := resetWs ws' }
+              { s1 with cache := loss.foldl Cache.lose s1.cache } hp
+              (wsOK_reset B pd.o pd.n pd.missing ws' c0) hinv
+              (fun r h => hr r (List.mem_cons_of_mem _ h))
+            exact ⟨i1, CovSub.trans hsub i2, i3⟩
+
+/-- `readAtShared` with the repaired retry. -/
+def readAtSharedFixed (P : Params) (s : St) (o n : Nat) (script : List Round) : St × SharedOut :=
+  if n = 0 ∨ o > P.size then (s, .ok 0 (List.replicate n 0))
+  else
+    let pd := prepared s o n (rangeChunks P o n)
+    if pd.missing.isEmpty then (s, finish P pd) else fetchRangeSharedFixed P pd s script
+
+theorem readAtSharedFixed_exact (P : Params) (B : Bytes) (hc : 0 < P.chunk) (hB : B.length = P.size)
+    (s : St) (hs : InvQ P (QPrefix P B) s) (o n : Nat) (script : List Round)
+    (hr : ∀ r ∈ script, r.Honest B) :
+    InvQ P (QPrefix P B) (readAtSharedFixed P s o n script).1 ∧
+    CovSub s (readAtSharedFixed P s o n script).1 ∧
+    SharedExact P B o n (readAtSharedFixed P s o n script).2 := by
+  unfold readAtSharedFixed rangeChunks
+  by_cases h : n = 0 ∨ o > P.size
+  · rw [if_pos h]
+    refine ⟨hs, CovSub.refl s, ?_⟩
+    intro k buf hk
+    cases hk
+    have : min n (P.size - o) = 0 := by omega
+    rw [this]
+    exact ⟨rfl, by simp, by simp [slice]⟩
+  · rw [if_neg h]
+    have hp := pendOK_prepared P B _ (goodQ_prefix P B) hc hB s hs o n (by omega) (by omega)
+    have hws := wsOK_prepared B s o n (chunksFrom P (o + n - 1) (P.size + 1) (floorU o P.chunk))
+    simp only at hp ⊢
+    split
+    · rename_i hemp
+      refine ⟨hs, CovSub.refl s, ?_⟩
+      apply sharedExact_finish P B _ hp hws
+      intro c hcm
+      rw [List.isEmpty_iff] at hemp
+      rw [hemp] at hcm
+      simp at hcm
+    · exact fetchRangeSharedFixed_exact P B hc hB script _ s hp hws hs hr
+
+/-- While no copy fails the repaired retry and the model of the code are the same function. -/
+theorem fetchRangeSharedFixed_lead (P : Params) (pd : Pending) (s : St) (reply : Reply)
+    (rest : List Round) :
+    fetchRangeSharedFixed P pd s (.lead reply :: rest) =
+      fetchRangeShared P pd s (.lead reply :: rest) := by
+  simp only [fetchRangeSharedFixed, fetchRangeShared]
+  rcases fetchMissing P s pd.missing reply with ⟨s', _ | got⟩ <;> rfl
+
+/-! ### `CacheCovered` holds along every history -/
+
+/-- An entry seen after a loss was an entry (possibly longer) before. -/
+theorem Cache.get_lose (cache : Cache) (l : Loss) (c : Chunk) (d : Bytes)
+    (h : (cache.lose l).get c = some d) : ∃ d', cache.get c = some d' := by
+  have hs : InvQ ⟨0, 1⟩ (fun c _ => ∃ d', cache.get c = some d') { cache := cache, fetched := [] } :=
+    ⟨fun c d h => ⟨d, h⟩, ⟨by simp, by simp⟩, by intro l hl; simp at hl⟩
+  cases l with
+  | evict c0 => exact (dropEntry_specQ _ _ _ hs c0).1.cacheQ c d h
+  | trunc c0 k => exact (truncEntry_specQ _ _ (fun _ _ _ h => h) _ hs c0 k).1.cacheQ c d h
+
+theorem cacheCovered_lose (s : St) (loss : List Loss) (h : CacheCovered s) :
+    CacheCovered { s with cache := loss.foldl Cache.lose s.cache } := by
+  induction loss generalizing s with
+  | nil => exact h
+  | cons l loss ih =>
+    apply ih { s with cache := s.cache.lose l }
+    intro c d hget x h1 h2
+    obtain ⟨d', hd'⟩ := Cache.get_lose s.cache l c d hget
+    exact h c d' hd' x h1 h2
+
+theorem readAt_cacheCovered (P : Params) (B : Bytes) (Q : Chunk → Bytes → Prop) (hQ : GoodQ P B Q)
+    (hc : 0 < P.chunk) (s : St) (hs : InvQ P Q s) (hcc : CacheCovered s) (o n : Nat)
+    (reply : Reply) (hr : HonestReply B reply) : CacheCovered (readAt P s o n reply).1 := by
+  by_cases h : n = 0 ∨ o > P.size
+  · unfold readAt; rw [if_pos h]; exact hcc
+  · rw [readAt_unfold P s o n reply hc h]
+    simp only
+    have := (fetchMissing_cov P B Q hQ hc 0 0 s (classify o n s.cache
+      (chunksFrom P (o + n - 1) (P.size + 1) (floorU o P.chunk))).2 reply hs hr hcc).1
+    generalize fetchMissing P s (classify o n s.cache
+      (chunksFrom P (o + n - 1) (P.size + 1) (floorU o P.chunk))).2 reply = R at this
+    obtain ⟨s1, r1⟩ := R
+    cases r1 <;> exact this
+
+theorem runOps_cacheCovered (P : Params) (B : Bytes) (Q : Chunk → Bytes → Prop) (hQ : GoodQ P B Q)
+    (hT : TruncClosed Q) (hc : 0 < P.chunk) (hB : B.length = P.size) :
+    ∀ (ops : List Op) (s : St), InvQ P Q s → CacheCovered s → (∀ op ∈ ops, op.Honest B) →
+      CacheCovered (runOps P s ops) := by
+  intro ops
+  induction ops with
+  | nil => intro s _ h _; exact h
+  | cons op ops ih =>
+    intro s hs hcc hh
+    have ho := hh op (List.mem_cons_self ..)
+    obtain ⟨h1, _, _⟩ := stepOp_specQ P B Q hQ hc hB s hs op ho (Or.inr hT)
+    have hcc' : CacheCovered (stepOp P s op).1 := by
+      cases op with
+      | read o n r => exact readAt_cacheCovered P B Q hQ hc s hs hcc o n r ho
+      | cache o n r => exact (cacheAt_cov P B Q hQ hc 0 0 s o n r hs ho hcc).1
+      | drop c => exact cacheCovered_lose s [.evict c] hcc
+      | trunc c k => exact cacheCovered_lose s [.trunc c k] hcc
+    exact ih (stepOp P s op).1 h1 hcc' (fun op' h' => hh op' (List.mem_cons_of_mem _ h'))
+
 end SV.Blob
